@@ -181,6 +181,48 @@ def main():
     c.oblige(f"Gen_tables: shipped_is_fresh_* (state map over {nA} states respects every shift/reduce/goto entry, start and end states), tables closed, rules_equal "
              f"({len(A['rules'])} rules), terminals_equal ({len(A['terminals'])} terminals), options_equal", ok, log[-1500:])
     c.cov["states"] = nA; c.cov["transitions"] = sum(len(r) for r in A["states"].values())
+    # ---------------- the driver model (Model/LR.v) against the real runtime: token sequences fed to ParserState.feed_token of the shipped
+    # module; the state stack after every token and the way the run ends must be what the model computes on the shipped table
+    def real_traces(mod, T, start, n):
+        inner = mod.Parser().parser.parser.parser if hasattr(mod, "Parser") else mod.Lark_StandAlone().parser.parser.parser
+        pt, cb = inner.parse_table, inner.callbacks
+        terms = [t[0] for t in T["terminals"] if t[0] != "WS"]
+        out = []
+        for _ in range(n):
+            st = mod.ParserState(mod.ParseConf(pt, cb, start), None)
+            types, stacks, fin = [], [], None
+            for i in range(rng.choice([1, 2, 3, 4, 6, 9, 14])):
+                acc = [k for k in pt.states[st.position] if k in terms]
+                ty = rng.choice(acc) if (acc and rng.random() < 0.88) else rng.choice(terms)
+                types.append(ty)
+                try:
+                    st.feed_token(mod.Token(ty, SAMPLE.get(ty, "x")))
+                    stacks.append(list(st.state_stack))
+                except mod.UnexpectedToken:
+                    fin = ("at", i); break
+            if fin is None:
+                try:
+                    st.feed_token(mod.Token("$END", ""), True); fin = ("accepted",)
+                except mod.UnexpectedToken:
+                    fin = ("end",)
+            out.append((types, stacks, fin))
+        return out
+    rules_coq = clist(f"(MkRule {cpos(sid[r[0]])} {cnat(len(r[1]))})" for r in allrules)
+    ttxt = LHEADER + f"Definition rules : list rule := {rules_coq}.\n"
+    ncases = 0
+    for st in sorted(set(A["start_states"]) & set(B["start_states"])):
+        traces = real_traces(shipped_mod, A, st, 250 if quick else 3000)
+        ncases += len(traces)
+        items = []
+        for types, stacks, fin in traces:
+            f = {"accepted": "TAccepted", "end": "TRejectedAtEnd"}.get(fin[0]) or f"(TRejectedAt {cnat(fin[1])})"
+            items.append(f"({clist(cpos(sid[t]) for t in types)}, {clist(clist(cnat(x) for x in stk) for stk in stacks)}, {f})")
+        ttxt += f"Definition shipped_{st} : table := {ctable(A, st)}.\nDefinition traces_{st} : list (list positive * list (list nat) * trace_end) := {clist(items)}.\n"
+        ttxt += (f"Lemma driver_model_agrees_{st} : forallb (trace_ok rules shipped_{st} {cpos(sid['$END'])} 200%nat) traces_{st} = true.\nProof. vm_compute. reflexivity. Qed.\n")
+    out2 = c.run_coq({"Run_driver": ttxt})
+    ok2, log2 = out2["Run_driver"]
+    c.oblige(f"Run_driver.driver_model_agrees_* (Model/LR.v = the shipped module's ParserState.feed_token on {ncases} token sequences: state stack after every token, accept / reject position)", ok2, log2[-800:])
+    c.cov["driver_traces"] = ncases
     # ---------------- differential: both real parsers on generated strings (accepted and rejected)
     strings = gen_strings(rng, 1500 if quick else 30000)
     cand = []
